@@ -89,14 +89,6 @@ theorem toNat_wrapU32 (c : Nat) (hc : c < 2 ^ 32) : (wrapU 32 (c : Int)).toNat =
   have := wrapU32_natCast c hc
   rw [this]; simp
 
-theorem wrapS_of_inS {w : Nat} (hw : w = 8 ∨ w = 16 ∨ w = 32) {n : Int} (h : inS w n = true) :
-    wrapS w n = n := by
-  simp only [inS, Bool.and_eq_true, decide_eq_true_eq] at h
-  rcases hw with rfl | rfl | rfl <;> simp only [wrapS, cvt, pow2] at h ⊢ <;>
-    (simp only [Nat.reduceSub, Nat.reducePow]
-     rw [if_pos (by omega)]
-     omega)
-
 mutual
 theorem rt_ty : ∀ (t : JTy) (v : Val) (j : Json), expressible t = true → valOk fc t v = true →
     mapEncode fc o t v = .ok j →
